@@ -37,6 +37,7 @@ fn main() {
         "C01" => (mc, Box::new(|r| checks::codec::run(r, Mode::C01))),
         "C03" => (ex, Box::new(|r| checks::c03::run(r))),
         "C04" => (ex, Box::new(|r| checks::amf0::run_c04(r))),
+        "C05" => (mc, Box::new(|r| checks::c05::run(r))),
         "C06" => (mc, Box::new(|r| checks::c06::run(r))),
         "C07" => (mc, Box::new(|r| checks::codec::run(r, Mode::C07))),
         "C08" => (mc, Box::new(|r| checks::codec::run(r, Mode::C08))),
